@@ -88,7 +88,8 @@ def classify_line(l, keys):
         return ("header",)
     cols = [unescape(c) for c in l.split("\t")]
     try:
-        inv, it, val = int(cols[0]), int(cols[1]), float(cols[2])
+        # a boolean value (the Success criterion of ValidationLog) is written as True / False and read back as such
+        inv, it, val = int(cols[0]), int(cols[1]), (float(cols[2] == "True") if cols[2] in ("True", "False") else float(cols[2]))
         cols[3], cols[4]
         rid = int(cols[5:][-1])
     except (ValueError, IndexError):
